@@ -33,6 +33,7 @@ def run(prog, tier):
     dispatcher(prog, chk, names, U)
     fluor_line(prog, chk, names, U)
     share_nonzero(prog, chk, U)
+    error_only_on_failure(prog, chk, tier, U)
     return chk
 
 
@@ -281,6 +282,25 @@ def dispatcher(prog, chk, names, U):
 
 def noerr_key(key):
     return strip_err_text(key)
+
+
+def error_only_on_failure(prog, chk, tier, U):
+    """"the call fails with an error ... when a REQUIRED jump ratio, yield or Coster-Kronig probability is unavailable": a quantity that is
+    not required on the path taken must not leave an error behind a valid result (a lookup that is handed the caller's error slot and
+    whose failure is then ignored).  The per-path error typestate of rules/c03.py (error => sentinel, set once, untested delegates),
+    restricted to the functions of this property."""
+    from rules import c03
+    shim = c03.run(prog, tier)
+    mine = ('Jump_from_K', 'Jump_from_L1', 'Jump_from_L2', 'Jump_from_L3', 'CS_FluorShell', 'CS_FluorLine', 'CSb_FluorShell', 'CSb_FluorLine')
+    take = ('O2-error-means-sentinel', 'O3-set-once', 'O4-untested-delegate', 'O1-sentinel-has-error')
+    n = sum(1 for rule, inst, why, loc in shim.held if rule in take and inst.split(':')[0].split(' ')[0] in mine)
+    bad = [v for v in shim.violations if v['rule'] in take and v['function'] in mine]
+    for v in bad:
+        chk.bad('error-iff-failure', v['unit'], v['function'], '%s: %s' % (v['rule'], v['instance']), v['loc'],
+                'the error slot and the result disagree on this path of the jump-ratio cross sections: ' + v['message'])
+    if not bad:
+        chk.ok('error-iff-failure', 'jump-ratio functions', 'error stored exactly on the failing paths (%d path families of %d functions)' % (n, len(mine)), U)
+    chk.floor('error-typestate obligations of the jump-ratio functions', n + len(bad), 20)
 
 
 def share_nonzero(prog, chk, U):
